@@ -337,6 +337,13 @@ fn c02_kmer<C: Oracle, const K: usize>(rep: &mut Report, rng: &mut Rng) {
             rep.expect(k == *sl && k == sl && k == owned, "C02 a k-mer equals the sequences with the same symbols", || format!("{} K={} {}", C::NAME, K, sl));
             let txt = sl.to_string();
             rep.expect(k == txt.as_str() && *sl == txt.as_str(), "C02 a sequence equals its own displayed text", || format!("{} {}", C::NAME, txt));
+            // text that differs from the displayed text only by letter case is ANOTHER text (for the masked codecs: another sequence)
+            let (up, low) = (txt.to_ascii_uppercase(), txt.to_ascii_lowercase());
+            for other in [&up, &low] {
+                if *other != txt {
+                    rep.expect(!(k == other.as_str()) && !(*sl == other.as_str()), "C02 a sequence equals no other text (letter case matters)", || format!("{} {} vs {:?}", C::NAME, txt, other));
+                }
+            }
             // differing in one symbol
             if C::len() > 1 {
                 let mut r2 = rows.clone();
@@ -485,6 +492,10 @@ fn c02(_tier: &str, seed: u64) -> Report {
     c02_kmer::<Amino, 10>(&mut rep, &mut rng);
     c02_kmer::<text::Dna, 1>(&mut rep, &mut rng);
     c02_kmer::<text::Dna, 8>(&mut rep, &mut rng);
+    c02_kmer::<masked::dna::Dna, 4>(&mut rep, &mut rng);
+    c02_kmer::<masked::dna::Dna, 16>(&mut rep, &mut rng);
+    c02_kmer::<masked::iupac::Iupac, 5>(&mut rep, &mut rng);
+    c02_kmer::<masked::iupac::Iupac, 12>(&mut rep, &mut rng);
     for_codecs!(c02_text, &mut rep, &mut rng);
     for_codecs!(c02_alias, &mut rep, &mut rng);
     for_codecs!(c02_owned, &mut rep, &mut rng);
@@ -1613,6 +1624,12 @@ fn c10(_tier: &str, seed: u64) -> Report {
                 "C10 the comparison operators, min, max and clamp of k-mers agree with cmp", || format!("Kmer<Dna,32> {:#x} vs {:#x}", a, b));
             rep.expect(ka.cmp(&kb) == want && ka.partial_cmp(&kb) == Some(want) && (ka < kb) == (want == std::cmp::Ordering::Less) && (ka == kb) == (a == b),
                 "C10 full-width k-mers (K*BITS = 64) order by the packed integer, consistently with equality", || format!("Kmer<Dna,32> {:#x} vs {:#x}: {:?}", a, b, ka.cmp(&kb)));
+            let (va, vb) = (a | (b << 64), b | (a << 64));
+            let m80 = (1u128 << 80) - 1;
+            // ordering of k-mers on wide storage; compiled out (cfg no_wide_ord, set by the driver on a retry) when the tree under
+            // test no longer implements Ord for u64 / u128-backed k-mers, so that the word-sized checks above still run
+            #[cfg(not(no_wide_ord))]
+            {
             let (ua, ub): (Kmer<Dna, 32, u64>, Kmer<Dna, 32, u64>) = (Kmer::from(a as u64), Kmer::from(b as u64));
             rep.expect(ua.cmp(&ub) == (a as u64).cmp(&(b as u64)), "C10 u64-backed full-width k-mers order by the packed integer", || format!("{:#x} vs {:#x}", a, b));
             let (wa, wb) = (a | (a << 64), b | (b << 64));
@@ -1621,15 +1638,14 @@ fn c10(_tier: &str, seed: u64) -> Report {
             rep.expect(xa.cmp(&xb) == wa.cmp(&wb), "C10 u128-backed full-width k-mers order by the packed integer", || format!("{:#x} vs {:#x}", wa, wb));
             // low and high word chosen independently (the two words order in opposite directions for half the pairs): the
             // high word, i.e. the LAST symbols, must decide
-            let (va, vb) = (a | (b << 64), b | (a << 64));
             let ya: Kmer<Dna, 64, u128> = Kmer { _p: core::marker::PhantomData, bs: va };
             let yb: Kmer<Dna, 64, u128> = Kmer { _p: core::marker::PhantomData, bs: vb };
             rep.expect(ya.cmp(&yb) == va.cmp(&vb) && ya.partial_cmp(&yb) == Some(va.cmp(&vb)) && (ya == yb) == (va == vb) && (ya < yb) == (va < vb),
                 "C10 u128-backed k-mers spanning two words order by the packed integer (last symbols most significant)", || format!("{:#x} vs {:#x}: {:?}", va, vb, ya.cmp(&yb)));
-            let m80 = (1u128 << 80) - 1;
             let za: Kmer<Dna, 40, u128> = Kmer { _p: core::marker::PhantomData, bs: va & m80 };
             let zb: Kmer<Dna, 40, u128> = Kmer { _p: core::marker::PhantomData, bs: vb & m80 };
             rep.expect(za.cmp(&zb) == (va & m80).cmp(&(vb & m80)), "C10 u128-backed 40-mers order by the packed integer", || format!("{:#x} vs {:#x}: {:?}", va & m80, vb & m80, za.cmp(&zb)));
+            }
             let ia: Kmer<Iupac, 20, u128> = Kmer { _p: core::marker::PhantomData, bs: va & m80 };
             let ib: Kmer<Iupac, 20, u128> = Kmer { _p: core::marker::PhantomData, bs: vb & m80 };
             rep.expect((ia == ib) == (va & m80 == vb & m80), "C10 u128-backed IUPAC k-mers: equality is equality of the packed integer", || format!("{:#x} vs {:#x}", va & m80, vb & m80));
